@@ -404,4 +404,51 @@ theorem find_complete (t : Trie) (hu : t.unshadowed = true) (m p : Bytes) (e : E
   rw [h2]
   exact this
 
+theorem addVerb_length (v : Bytes) : ∀ cs : List Bytes, (addVerb v cs).length = cs.length := by
+  intro cs
+  induction cs with
+  | nil => simp [addVerb]
+  | cons c cs ih =>
+    cases cs with
+    | nil => simp [addVerb]
+    | cons d r => simp [addVerb] at ih ⊢; exact ih
+
+/-- `matchKeys1` is `matchKeys` plus "there are at least as many components as keys" (`**` is always the last key:
+    it then takes at least one component) -/
+theorem matchKeys1_of_length : ∀ (ks : List Key) (cs : List Bytes), matchKeys (ks.map Key.mkey) cs = true →
+    ks.length ≤ cs.length → matchKeys1 ks cs = true := by
+  intro ks
+  induction ks with
+  | nil => intro cs h _; simpa [matchKeys1, matchKeys] using h
+  | cons k ks ih =>
+    intro cs h hl
+    cases k with
+    | lit l =>
+      cases cs with
+      | nil => simp [Key.mkey, matchKeys] at h
+      | cons c cs =>
+        simp [Key.mkey, matchKeys] at h
+        simp at hl
+        simp [matchKeys1, h.1, ih cs h.2 hl]
+    | wild =>
+      cases cs with
+      | nil => simp [Key.mkey, matchKeys] at h
+      | cons c cs =>
+        simp [Key.mkey, matchKeys] at h
+        simp at hl
+        simp [matchKeys1, ih cs h hl]
+    | multi =>
+      simp [Key.mkey, matchKeys] at h
+      subst h
+      cases cs with
+      | nil => simp at hl
+      | cons c cs => simp [matchKeys1]
+
+theorem Matches1.of_matches {keys : List Key} {verb : Bytes} {comps : List Bytes}
+    (h : Matches (keys.map Key.mkey) verb comps) (hl : keys.length ≤ comps.length) : Matches1 keys verb comps := by
+  obtain ⟨cs, h1, h2⟩ := h
+  refine ⟨cs, matchKeys1_of_length keys cs h1 ?_, h2⟩
+  rw [h2, addVerb_length] at hl
+  exact hl
+
 end GB.C20
